@@ -19,8 +19,8 @@ Q = 1024
 
 def gen_cfg(path, nslots, depth, ops, simulate=False):
     with open(path, "w") as f:
-        f.write("CONSTANTS\n  NSlots = %d\n  Depth = %d\n  Ops = {%s}\n" %
-                (nslots, depth, ",".join('"%s"' % o for o in ops)))
+        f.write("CONSTANTS\n  NSlots = %d\n  Depth = %d\n  Ops = {%s}\n  Walk = %s\n" %
+                (nslots, depth, ",".join('"%s"' % o for o in ops), "TRUE" if simulate else "FALSE"))
         f.write("SPECIFICATION Spec\nINVARIANTS Closed Laws %s\nPROPERTY Immutable\n" %
                 ("EmitLeaf" if simulate else "Emit"))
         if not simulate:
@@ -139,6 +139,8 @@ def collect_histories(ctx, vh):
     for h in sim:
         h["tag"] = "sim"
     notes["sim_histories"] = len(sim)
+    if not sim:
+        raise core.Infra("the random walks of MeshPool emitted no history")
     hists += sim
 
     # (3) implementation-shaped heap model: design check + risky history shapes
@@ -234,9 +236,6 @@ def collect_histories(ctx, vh):
         for t1, t2 in combos:
             if (g, tuple(t1)) not in accepted or (g, tuple(t2)) not in accepted:
                 continue
-            k += 1
-            if tier == "quick" and k % 3 != seed % 3:
-                continue
             pairs.append({"nslots": 4, "tag": "primpair", "steps": [
                 {"op": "Prim", "dst": 1, "src": [], "args": {"z": 0, "gen": g, "p": t1}},
                 {"op": "Translate", "dst": 3, "src": [1], "args": {"z": 0, "v": [Q, 0, 0]}},
@@ -254,9 +253,6 @@ def collect_histories(ctx, vh):
     k = 0
     for n in (2, 3, 4):
         for seq in itertools.product((1, 2, 3), repeat=n):
-            k += 1
-            if tier == "quick" and k % 3 != seed % 3:
-                continue
             m = base_mesh(n, 1, "triangle", extra=True)
             steps = [{"op": "New", "dst": 1, "src": [], "args": {"z": 0, "mesh": m}},
                      {"op": "SetMaterials", "dst": 2, "src": [1], "args": {"z": 0, "mats": [{"n": 1, "m": x} for x in seq]}}]
